@@ -9,6 +9,8 @@ import (
 	"os"
 	"reflect"
 	"strings"
+	"sync"
+	"sync/atomic"
 
 	"nriverif/internal/ev"
 
@@ -297,6 +299,33 @@ func copyView(r *api.LinuxResources) string {
 }
 
 func runC14(c *ev.ChildEnv, res *ev.Result) {
+	// the very first use of the mask parser in this process, from many goroutines at once (a table built
+	// lazily on first use must be built safely); the race detector watches
+	{
+		var wg sync.WaitGroup
+		start := make(chan struct{})
+		var bad atomic.Int32
+		for w := 0; w < 16; w++ {
+			wg.Add(1)
+			go func(w int) {
+				defer wg.Done()
+				<-start
+				for m := 1 + w; m <= int(api.ValidEvents); m += 257 {
+					mask := api.EventMask(m)
+					if back, err := api.ParseEventMask(mask.PrettyString()); err != nil || back != mask {
+						bad.Add(1)
+					}
+				}
+			}(w)
+		}
+		close(start)
+		wg.Wait()
+		res.Eval()
+		if bad.Load() > 0 {
+			res.Violate("C14/mask-roundtrip", fmt.Sprintf("%d masks did not survive print + parse when the parser's first uses in the process ran concurrently", bad.Load()), nil)
+		}
+		res.Seen("masks|concurrent-first-use")
+	}
 	g := newMgen(uint64(c.Seed), uint64(c.Batch)+1400)
 	n := tierN(c.Tier, 4000, 600000) / c.Batches
 
@@ -336,6 +365,51 @@ func runC14(c *ev.ChildEnv, res *ev.Result) {
 		}
 		nb := api.FromOCILinuxResources(nr.ToOCI(), nil)
 		res.Eval()
+		// what a conversion returns shares no state with what it was given: the consumer scribbles over every
+		// number of the OCI value, the NRI original and a second conversion of it are unaffected
+		{
+			before := proto.Clone(nr).(*api.LinuxResources)
+			oc := nr.ToOCI()
+			if oc != nil {
+				if m := oc.Memory; m != nil {
+					for _, p := range []*int64{m.Limit, m.Reservation, m.Swap, m.Kernel, m.KernelTCP} {
+						if p != nil {
+							*p = -4242
+						}
+					}
+					if m.Swappiness != nil {
+						*m.Swappiness = 4242
+					}
+				}
+				if cp := oc.CPU; cp != nil {
+					if cp.Quota != nil {
+						*cp.Quota = -4242
+					}
+					if cp.RealtimeRuntime != nil {
+						*cp.RealtimeRuntime = -4242
+					}
+					for _, p := range []*uint64{cp.Shares, cp.Period, cp.RealtimePeriod} {
+						if p != nil {
+							*p = 4242
+						}
+					}
+				}
+				for k := range oc.Unified {
+					oc.Unified[k] = "scribbled"
+				}
+				for i := range oc.Devices {
+					if oc.Devices[i].Major != nil {
+						*oc.Devices[i].Major = -4242
+					}
+					if oc.Devices[i].Minor != nil {
+						*oc.Devices[i].Minor = -4242
+					}
+				}
+			}
+			if !proto.Equal(before, nr) {
+				res.Violate("C14/conversion-aliases/resources", "writing through the pointers of the OCI value returned by ToOCI() changed the NRI resources it was converted from", map[string]any{"before": before, "after": nr})
+			}
+		}
 		strip := func(r *api.LinuxResources) string {
 			x := proto.Clone(r).(*api.LinuxResources)
 			x.BlockioClass, x.RdtClass = nil, nil // not carried by the OCI representation
